@@ -181,3 +181,20 @@ def run_cases(binary, cases, timeout = 600, args = ()):
 		crashes.append((bad, rc, err.decode(errors = "replace")[-3000:], sanitizer_summary(err)))
 		start = bad + 1
 	return outputs, crashes
+
+
+SHIM_FORWARD = ["osmocom/core/linuxlist.h", "osmocom/core/msgb.h", "osmocom/core/prim.h",
+	"osmocom/gsm/protocol/gsm_04_08.h"]
+
+
+def trxcon_includes(bd):
+	""" Include path for trxcon sources: harness shim of modern libosmocore,
+	    forwarders to the few in-repo libosmocore headers that are compatible,
+	    trxcon's own headers. """
+	fwd = bd.sub("shimfwd")
+	for rel in SHIM_FORWARD:
+		dst = os.path.join(fwd, rel)
+		os.makedirs(os.path.dirname(dst), exist_ok = True)
+		with open(dst, "w") as f:
+			f.write('#pragma once\n#include "%s"\n' % os.path.join(LIBOSMO, "include", rel))
+	return [os.path.join(CDIR, "shim"), fwd, os.path.join(TRXCON, "include")]
